@@ -37,12 +37,16 @@ def num_tok(rng, c):
     forms = [str(c)]
     if rng:
         forms += [str(c), "%d.0" % c, "%d." % c] + (["%de0" % c] if c > 0 else [])
+        if c >= 0:      # IntegerLiteral: hexadecimal and binary numerals
+            forms += [hex(c), bin(c).replace("0b", "0B")]
     return T("num", c, rng.choice(forms) if rng else forms[0])
 
 
 def interval_toks(rng, p):
     sep = rng.choice([",", ":"]) if rng else ","
-    return [T("[")] + [num_tok(None, p["a"])] + [T(sep)] + [num_tok(None, p["b"])] + [T("]")]
+    hx = rng is not None and rng.random() < 0.08
+    return [T("[")] + [T("num", p["a"], hex(p["a"])) if hx else num_tok(None, p["a"])] + [T(sep)] + \
+           [T("num", p["b"], bin(p["b"])) if hx else num_tok(None, p["b"])] + [T("]")]
 
 
 def node_prec(p):
